@@ -92,6 +92,15 @@ def make_plan(seed: int, tier: str) -> dict:
             "n_iter": st.randint(4, 10), "target": st.randint(0, 63), "perm_seed": st.randint(0, 999),
             "schedule": st.choice(["shuffled", "threads", "threads"]), "workers": st.randint(2, 4), "n_jobs": st.choice([2, 3, 4]),
             "hashseed": st.choice([1, 7, 123, 4242])}
+    if algo == "scipy_minimize" and st.bernoulli(0.35):
+        # documented optimiser options: a small iteration budget makes some individuals stop unconverged (their "convergence history"
+        # must stay their own), another method / no jacobian exercises the other code paths
+        plan["custom_scipy"] = st.choice([
+            {"method": "Powell", "options": {"maxiter": st.randint(1, 8)}},
+            {"method": "Powell", "options": {"maxiter": st.randint(1, 8), "xtol": 1e-4, "ftol": 1e-4}},
+            {"method": "Nelder-Mead", "options": {"maxiter": st.randint(5, 30)}},
+        ])
+        plan["use_jacobian"] = st.bernoulli(0.5)
     return plan
 
 
@@ -130,6 +139,11 @@ def personalise(model_settings_plan, df, kind, algo, plan, *, schedule="sequenti
     kw = dict(seed=plan["aseed"], progress_bar=False)
     if algo == "scipy_minimize":
         kw["n_jobs"] = n_jobs
+        if plan.get("custom_scipy"):
+            kw["custom_scipy_minimize_params"] = copy.deepcopy(plan["custom_scipy"])
+            kw["use_jacobian"] = bool(plan.get("use_jacobian", True))
+            if C is not None:
+                C["probe.custom_optimiser_options"] += 1
     else:
         kw["n_iter"] = plan["n_iter"]
     # prior samples (start points of the optimisation) served per individual identifier
